@@ -391,16 +391,19 @@ class TypeChecker(walkers.dag.DagWalker):
                 and not t.is_compatible(x)
                 and not x.is_compatible(t)
             ):
+                # a user-typed term can only be compared with another user-typed term
+                if not x.is_user_type():
+                    return None
                 # check if t and x have at least one common ancestor
                 t = cast(_UserType, t)
-                if x.is_user_type():
-                    x = cast(_UserType, x)
-                    x_ancestors = set(x.ancestors)
-                    if all(t_ancestor not in x_ancestors for t_ancestor in t.ancestors):
-                        return None
-            elif (t.is_int_type() or t.is_real_type()) and not (
-                x.is_int_type() or x.is_real_type()
+                x = cast(_UserType, x)
+                x_ancestors = set(x.ancestors)
+                if all(t_ancestor not in x_ancestors for t_ancestor in t.ancestors):
+                    return None
+            elif (t.is_int_type() or t.is_real_type() or t.is_time_type()) and not (
+                x.is_int_type() or x.is_real_type() or x.is_time_type()
             ):
+                # numeric and time terms can only be compared with each other
                 return None
         return BOOL
 
